@@ -618,8 +618,30 @@ const Y_BOGUS: &str = "targets:\n  a:\n    build: 'echo start a >> $TRACE'\n    
 const Y_DUP_ROOT: &str = "imports:\n  dup: x\ntargets:\n  a:\n    dependencies: ['dup::t']\n    build: 'echo start a >> $TRACE'\n    output: [{paths: [out]}]\n";
 const Y_DUP_X: &str = "name: dup\nimports:\n  dup: inner\ntargets:\n  t:\n    build: 'echo start outer >> $TRACE'\n";
 
+/// two projects importing each other, acyclic targets across them: exactly the closure runs
+fn c09_mutual_imports() -> Option<(String, String)> {
+    let p = Proj::new("c09m");
+    p.write_yml("zinoma.yml", &format!("name: app\nimports:\n  lib: lib\ntargets:\n  top:\n    dependencies: [\"lib::build\"]\n    build: '{}'\n  gen:\n    build: '{}'\n  unused:\n    build: '{}'\n", p.quick("top"), p.quick("gen"), p.quick("unused")));
+    p.write_yml("lib/zinoma.yml", &format!("name: lib\nimports:\n  app: ..\ntargets:\n  build:\n    dependencies: [\"app::gen\"]\n    build: '{}'\n", p.quick("build")));
+    let (code, err, to) = run_to_end(&p, &["top"]);
+    let mut got: Vec<String> = p.trace_lines().into_iter().filter(|l| l.starts_with("start ")).collect();
+    got.sort();
+    let r = if to {
+        Some(("mutually importing projects hang".to_string(), String::new()))
+    } else if code != Some(0) {
+        Some(("a valid project (two projects importing each other, acyclic targets) is refused or crashes".to_string(), format!("exit {:?}: {}", code, err.lines().rev().take(3).collect::<Vec<_>>().join(" | "))))
+    } else if got != vec!["start build".to_string(), "start gen".to_string(), "start top".to_string()] {
+        Some(("executed set is not the closure".to_string(), format!("{:?}", got)))
+    } else {
+        None
+    };
+    p.cleanup();
+    r
+}
+
 pub fn bind_c09(rep: &mut Report) {
     let sc: Vec<Scenario> = vec![
+        ("two projects importing each other, acyclic targets", c09_mutual_imports),
         ("cycle through dependencies and .output", || rejected(Y_CYCLE, None, &["a"])),
         ("cycle, --clean", || rejected(Y_CYCLE, None, &["--clean", "a"])),
         ("cycle, --clean alone", || rejected(Y_CYCLE, None, &["--clean"])),
